@@ -47,11 +47,12 @@ func pattern(n int, seed byte) []byte {
 }
 
 type c11Tree struct {
-	top   []*gen.Box
-	doc   *gen.Doc
-	all   []*gen.Box // DFS order
-	rec   *gen.Rec
-	parts gen.CR3Parts
+	degenerate bool // box sizes honest, but a child's content is too short for its type
+	top        []*gen.Box
+	doc        *gen.Doc
+	all        []*gen.Box // DFS order
+	rec        *gen.Rec
+	parts      gen.CR3Parts
 }
 
 func c11Build(x *mc.Exec, malformed bool) (*c11Tree, string) {
@@ -66,9 +67,53 @@ func c11Build(x *mc.Exec, malformed bool) (*c11Tree, string) {
 	}
 	extra := x.Choose("skeleton-variant", 5)
 	top := gen.CR3(parts, extra)
+	// ftyp with an unusual number of compatible brands (well-formed)
+	if nb := []int{-1, 0, 1, 8, 9, 12, 40}[x.Choose("ftyp-compatible-brands", 7)]; nb >= 0 {
+		brands := []string{"crx ", "isom", "mif1", "iso2", "miaf", "heic", "avif", "msf1"}
+		var cb []string
+		for i := 0; i < nb; i++ {
+			cb = append(cb, brands[i%len(brands)])
+		}
+		top[0] = gen.Ftyp("crx ", 1, cb...)
+	}
 	// insert an unknown box somewhere
 	moov := top[1]
 	metaU := moov.Children[0]
+	// a child of the Canon metadata box whose content is too short for its type (sizes stay honest)
+	degenerate := false
+	if dg := x.Choose("degenerate-child", 10); dg > 0 {
+		degenerate = true
+		set := func(typ string, n int) {
+			for _, c := range metaU.Children {
+				if c.Type == typ {
+					if n <= len(c.Payload.B) {
+						c.Payload = &gen.Doc{B: append([]byte{}, c.Payload.B[:n]...)}
+					}
+					c.Children = nil
+				}
+			}
+		}
+		switch dg {
+		case 1:
+			set("CNCV", 29)
+		case 2:
+			set("CNCV", 0)
+		case 3:
+			set("CTBO", 3)
+		case 4:
+			set("CTBO", 0)
+		case 5:
+			set("CTBO", 4)
+		case 6:
+			set("CMT3", 0)
+		case 7:
+			set("CMT3", 7)
+		case 8:
+			set("CCTP", 3)
+		case 9:
+			set("THMB", 5)
+		}
+	}
 	ins := x.Choose("insert-unknown-box", 1+7*3)
 	if ins > 0 {
 		where, size := (ins-1)/3, []int{0, 1, 100}[(ins-1)%3]
@@ -97,7 +142,7 @@ func c11Build(x *mc.Exec, malformed bool) (*c11Tree, string) {
 	case 2:
 		top = append(top, &gen.Box{Type: "free", Payload: &gen.Doc{B: make([]byte, 8)}})
 	}
-	t := &c11Tree{top: top, rec: rec, parts: parts}
+	t := &c11Tree{top: top, rec: rec, parts: parts, degenerate: degenerate}
 	gen.Walk(top, func(b *gen.Box, d int) { t.all = append(t.all, b) })
 	if lb := x.Choose("64-bit-size-box", len(t.all)+1); lb > 0 {
 		t.all[lb-1].Large = true
@@ -161,7 +206,7 @@ func c11Harness(malformed bool) mc.Harness {
 		x.Trivial = malformed && what == ""
 		x.Note("malformation", what)
 		x.Note("callbacks", c11ExifBeh[eb]+" / "+c11XmpBeh[xb]+" / "+c11PvBeh[pb])
-		wellFormed := what == ""
+		wellFormed := what == "" && !t.degenerate
 		sigs := map[string]bool{}
 		fail := func(kind, msg string) {
 			if sigs[kind] {
@@ -226,11 +271,18 @@ func c11Harness(malformed bool) mc.Harness {
 		bmr := isobmff.NewReader(br)
 		defer bmr.Close()
 		bmr.ExifReader = func(r io.Reader, h meta.ExifHeader) error {
+			// the callback belongs to the CMT box inside which the stream stands
 			var b *gen.Box
-			if nExif < 4 {
+			idx := nExif
+			p0 := pos()
+			for j, c := range cmts {
+				if c != nil && p0 >= c.Start && p0 <= c.End {
+					b, idx = c, j
+				}
+			}
+			if b == nil && nExif < 4 {
 				b = cmts[nExif]
 			}
-			idx := nExif
 			nExif++
 			checkPos(b, "at entry")
 			if wellFormed && b != nil {
@@ -350,6 +402,9 @@ func c11Harness(malformed bool) mc.Harness {
 				}
 				return true
 			}
+			if t.degenerate && what == "" && err == nil && p != b.End {
+				fail("top-level-position", fmt.Sprintf("after %s on top-level box %d (%s, %d..%d; one child has degenerate content, all sizes honest) the reader stands at %d although no error was returned", call, k, b.Type, b.Start, b.End, p))
+			}
 			if p > b.End && b.SizeDelta == 0 && !anyOverstated(b) {
 				fail("read-past-top-level-box", fmt.Sprintf("after %s on top-level box %d (%s, %d..%d) the reader stands at %d", call, k, b.Type, b.Start, b.End, p))
 			}
@@ -441,7 +496,7 @@ func init() {
 			}
 			return []mc.Space{
 				{Name: "well-formed-trees", H: c11Harness(false), Bound: b, Isolate: true,
-					Rule: "canonical CR3 box tree (ftyp, moov{uuid-meta{CNCV,CCTP{CCDT,CCDT},CTBO,free,CMT1-4,THMB},mvhd,trak{tkhd,mdia{mdhd,hdlr}}}, uuid-xpacket, uuid-preview{PRVW}, mdat); deviations: xpacket/preview size menus, skeleton variants (free / unknown top-level box, unknown children, 64-bit uuid sizes), an unknown box inserted at 7 places x 3 sizes, a trailing 8/16-byte box, any one box in 64-bit size form; x both byte orders x 5 Exif / 3 XMP / 3 preview callback behaviours"},
+					Rule: "canonical CR3 box tree (ftyp, moov{uuid-meta{CNCV,CCTP{CCDT,CCDT},CTBO,free,CMT1-4,THMB},mvhd,trak{tkhd,mdia{mdhd,hdlr}}}, uuid-xpacket, uuid-preview{PRVW}, mdat); deviations: xpacket/preview size menus, skeleton variants (free / unknown top-level box, unknown children, 64-bit uuid sizes), an unknown box inserted at 7 places x 3 sizes, a trailing 8/16-byte box, any one box in 64-bit size form, ftyp with 0/1/8/9/12/40 compatible brands, a metadata child with content too short for its type (CNCV, CTBO, CMT3, CCTP, THMB; sizes honest); x both byte orders x 5 Exif / 3 XMP / 3 preview callback behaviours"},
 				{Name: "overstated-children", H: c11Harness(true), Bound: b, Isolate: true,
 					Rule: "the same trees with any one box declaring a size off by {+1,+8,-1,-8,+64Ki,+2^31-1,+2^31,+2^32-1,+2^40}, optionally together with its parent (same amount or 64 more) or parent and grandparent (cooperating sites; the top-level box stays honest): no callback and no call may leave the stream beyond the end of the box being handled or of the enclosing top-level box; trivial = no overstatement"},
 			}
